@@ -186,6 +186,7 @@ func (t *c12Tpt) Proxy() bool { return t.proxy }
 type c12Call struct {
 	tid    int
 	dial   bool
+	opts   int64
 	cancel context.CancelFunc
 	gid    string
 	mu     sync.Mutex
@@ -228,6 +229,8 @@ func c12ErrCode(err error) int64 {
 		return 4
 	case strings.Contains(err.Error(), "max dial attempts exceeded"):
 		return 8
+	case errors.Is(err, ErrConnClosed):
+		return 9
 	}
 	return 21
 }
@@ -243,6 +246,7 @@ type c12H struct {
 
 	mu     sync.Mutex
 	conns  []*c12Conn // by id
+	sconns map[int]*Conn
 	calls  []*c12Call
 	opens  map[int]*c12OpenPark   // call id -> parked OpenStream
 	dials  map[int64]*c12DialPark // address code -> parked Dial
@@ -291,7 +295,7 @@ func (h *c12H) newConn(lim bool, t transport.Transport, raddr ma.Multiaddr) *c12
 }
 
 func newC12H(dialAttempts int64) *c12H {
-	h := &c12H{opens: map[int]*c12OpenPark{}, dials: map[int64]*c12DialPark{}, codes: map[string]int64{},
+	h := &c12H{sconns: map[int]*Conn{}, opens: map[int]*c12OpenPark{}, dials: map[int64]*c12DialPark{}, codes: map[string]int64{},
 		cov: map[string]bool{}, line: []int64{0, dialAttempts}}
 	priv, _, err := ic.GenerateEd25519Key(rand.Reader)
 	if err != nil {
@@ -423,8 +427,23 @@ func (h *c12H) observe() {
 		cn = 9
 	}
 	h.line = append(h.line, nw, c12b(key), cn)
+	listed := map[int]bool{}
+	for _, nc := range h.s.ConnsToPeer(h.p) {
+		if fc, ok := nc.(*Conn).conn.(*c12Conn); ok {
+			listed[fc.id] = true
+		}
+	}
 	h.mu.Lock()
 	defer h.mu.Unlock()
+	h.line = append(h.line, int64(len(h.conns)))
+	for _, fc := range h.conns {
+		// what the connection itself reports: Stat().Limited, Transport().Proxy(), IsClosed()
+		fl := c12b(fc.Stat().Limited) + 2*c12b(fc.Transport().Proxy())
+		if listed[fc.id] && !fc.IsClosed() {
+			fl += 4
+		}
+		h.line = append(h.line, fl)
+	}
 	h.line = append(h.line, int64(len(h.calls)))
 	var where map[string]int64
 	h.prev, h.cur = h.cur, nil
@@ -452,7 +471,7 @@ func (h *c12H) observe() {
 				st = [2]int64{w, 0}
 			}
 		}
-		h.line = append(h.line, st[0], st[1])
+		h.line = append(h.line, st[0], st[1], c.opts)
 		h.cur = append(h.cur, st)
 	}
 	h.coverStep()
@@ -545,7 +564,8 @@ func (h *c12H) opStart(dial, allow, force, nodial bool) {
 		ctx = network.WithNoDial(ctx, "c12")
 	}
 	ctx, cancel := context.WithCancel(ctx)
-	c := &c12Call{tid: tid, dial: dial, cancel: cancel}
+	c := &c12Call{tid: tid, dial: dial, cancel: cancel,
+		opts: c12b(dial) + 2*c12b(allow) + 4*c12b(force) + 8*c12b(nodial)}
 	h.mu.Lock()
 	h.calls = append(h.calls, c)
 	h.mu.Unlock()
@@ -637,6 +657,7 @@ func (h *c12H) opExpire() {
 // check (C05) and is kept out of the picture through its public API
 func (h *c12H) finish() {
 	synctest.Wait()
+	h.rememberConns()
 	h.s.backf.Clear(h.p)
 	h.observe()
 }
@@ -818,8 +839,15 @@ func (g *c12Gen) randomOp() {
 			}
 			h.opOpenRes(openTids[r.Intn(len(openTids))], r.Chance(2, 3))
 			return
-		case k < 82:
+		case k < 80:
 			g.randAddrs()
+			return
+		case k < 83:
+			if len(h.conns) == 0 || len(h.calls) >= 7 {
+				continue
+			}
+			g.nodial[len(h.calls)] = true
+			h.opStartOn(r.Intn(len(h.conns)), r.Bool())
 			return
 		case k < 96:
 			if len(dialCodes) == 0 {
@@ -962,7 +990,7 @@ func c12ParseOps(in []int64) (ops [][]int64) {
 			n = 2
 		case 4:
 			n = 5
-		case 6:
+		case 6, 11:
 			n = 3
 		case 7:
 			n = 2 + int(in[i+1])
@@ -978,11 +1006,15 @@ func c12ParseOps(in []int64) (ops [][]int64) {
 		}
 		ops = append(ops, in[i:i+n])
 		i += n
-		// OBS = nw key cn n (st arg)^n k (a f)^k
+		// OBS = nw key cn m (flags)^m n (st arg opts)^n k (a f)^k
 		if i+4 > len(in) {
 			return
 		}
-		i += 4 + 2*int(in[i+3])
+		i += 4 + int(in[i+3])
+		if i >= len(in) {
+			return
+		}
+		i += 1 + 3*int(in[i])
 		if i >= len(in) {
 			return
 		}
@@ -1014,6 +1046,8 @@ func c12Replay(h *c12H, ops [][]int64) {
 			h.opDialRes(o[1], o[2] != 0, o[3] != 0)
 		case 9:
 			h.opExpire()
+		case 11:
+			h.opStartOn(int(o[1]), o[2] != 0)
 		}
 	}
 }
@@ -1035,3 +1069,51 @@ func TestVerifC12Replay(t *testing.T) {
 }
 
 var _ = strconv.Itoa
+
+// the swarm's Conn of scripted connection id (remembered once seen, so that a
+// direct Conn.NewStream can also be tried on a connection that is gone)
+func (h *c12H) rememberConns() {
+	h.s.conns.RLock()
+	defer h.s.conns.RUnlock()
+	for _, sc := range h.s.conns.m[h.p] {
+		if fc, ok := sc.conn.(*c12Conn); ok {
+			h.sconns[fc.id] = sc
+		}
+	}
+}
+
+// opStartOn: Conn.NewStream called directly on connection id
+func (h *c12H) opStartOn(id int, allow bool) {
+	h.lastOp = 11
+	h.line = append(h.line, 11, int64(id), c12b(allow))
+	sc := h.sconns[id]
+	if sc == nil {
+		h.finish()
+		return
+	}
+	tid := len(h.calls)
+	ctx := context.WithValue(context.Background(), c12TidKey{}, tid)
+	if allow {
+		ctx = network.WithAllowLimitedConn(ctx, "c12")
+	}
+	ctx, cancel := context.WithCancel(ctx)
+	c := &c12Call{tid: tid, cancel: cancel, opts: 2*c12b(allow) + 8 + 16}
+	h.mu.Lock()
+	h.calls = append(h.calls, c)
+	h.mu.Unlock()
+	c.mu.Lock()
+	go func() {
+		c.gid = c12GoroutineID()
+		c.mu.Unlock()
+		str, err := sc.NewStream(ctx)
+		c.mu.Lock()
+		defer c.mu.Unlock()
+		c.done = true
+		if err != nil {
+			c.errc = c12ErrCode(err)
+			return
+		}
+		c.okConn = str.Conn().(*Conn).conn.(*c12Conn).id
+	}()
+	h.finish()
+}
